@@ -215,8 +215,9 @@ def regenerate(repo: Path) -> dict:
     except Exception as e:
         ok = False; status["gen_task_seed_is_int"] = f"ERROR: {e}"
     coq.write_if_changed(GEN / "GenSeed.v", HEADER + f"Definition gen_task_seed_is_int : bool := {'true' if ok else 'false'}.\n")
-    from . import tschema
+    from . import tschema, thyper
     tschema.emit(repo, status)
+    thyper.emit(repo, status)
     from . import talgo, expected
     try:
         sks, missing = talgo.analyse(repo)
